@@ -57,6 +57,10 @@ def doc_facts(case, fs):
 
 
 def facts_disagree(case, fs):
+    for f in fs:
+        # the APH weight of a result with ground truth is 1 - d/pi, d the smallest difference of the two YAW angles (tilted boxes included)
+        if f.get("weight_is_heading") and f.get("weight_ref") is not None and f["has_gt"] and abs(f["weight"] - f["weight_ref"]) > 1e-9:
+            return (f"result {f['rid']}: APH weight {f['weight']} but the heading agreement 1 - d/pi of the two yaw angles is {f['weight_ref']}")
     for f, d in zip(fs, doc_facts(case, fs)):
         if bool(f["lab_ok"]) != d["lab_ok"]:
             return (f"result {f['rid']}: is_label_correct = {f['lab_ok']} for estimate label {f['est_label']} / ground-truth label {f['gt_label']} "
@@ -91,7 +95,7 @@ class ApCorr(Corr):
         n_rand = 250 if tier == "quick" else 4000
         for i in range(n_rand):
             mode = rng.choice(A.MODES)
-            scene = A.gen_scene(rng, tie_heavy=(i % 5 == 0), n=(rng.randint(30, 120) if (tier != "quick" and i % 50 == 0) else None))
+            scene = A.gen_scene(rng, tie_heavy=(i % 5 == 0), n=(rng.randint(30, 120) if (tier != "quick" and i % 50 == 0) else None), tilt_prob=0.12)
             k = rng.choice([1, 1, 2, 3])
             targets = rng.sample(A.LABELS[:4], k)
             if i % 6 == 1 or i % 83 == 7 or i == 120:
@@ -236,7 +240,7 @@ class MapCorr(Corr):
         n_rand = 120 if tier == "quick" else 1500
         for i in range(n_rand):
             mode = rng.choice(A.MODES)
-            scene = A.gen_scene(rng, n=rng.randint(0, 18))
+            scene = A.gen_scene(rng, n=rng.randint(0, 18), tilt_prob=0.15)
             k = rng.choice([1, 2, 3, 4])
             targets = rng.sample(A.LABELS[:4], k)
             if i % 5 == 2:
@@ -278,6 +282,11 @@ class MapCorr(Corr):
         gt_labels = [g.semantic_label.label.value for g in gts]
         buckets = divide_objects(results, tl)
         nums = divide_objects_to_num(gts, tl)
+        if len(results) % 2:
+            # the dictionaries are looked up BY LABEL: their insertion order is the caller's business (the manager builds them with the
+            # critical filter's label order, which need not be the evaluator's) -- half of the cases hand them over reversed
+            buckets = dict(reversed(list(buckets.items())))
+            nums = dict(reversed(list(nums.items())))
         kw = {"is_detection_2d": True} if dim == "2d" else {}
         try:
             mp = Map(object_results_dict=buckets, num_ground_truth_dict=nums, target_labels=tl,
